@@ -35,7 +35,16 @@ func main() {
 	depth := flag.Int("depth", 0, "debug: inline depth for -dump")
 	list := flag.Bool("list", false, "list pike functions")
 	noEvidence := flag.Bool("no-evidence", false, "do not write evidence/replay files (self-test runs on scratch copies)")
+	describe := flag.Bool("describe", false, "print the registered properties and what each check decides (JSON)")
 	flag.Parse()
+	if *describe {
+		out := map[string]string{}
+		for id, pi := range properties {
+			out[id] = pi.explain
+		}
+		writeJSON("/dev/stdout", out)
+		return
+	}
 
 	defer func() {
 		if r := recover(); r != nil {
